@@ -274,7 +274,7 @@ func (b *builder) statePathOf(full string) string {
 
 // emit turns a value into a stream according to the node's chunking settings.
 func (b *builder) emit(ctx context.Context, n *Node, full string, out M, failMid error) *schema.StreamReader[M] {
-	chunks := chunksOf(out, n.Cut)
+	chunks := interimChunks(n, chunksOf(out, n.Cut))
 	if !n.Pipe && failMid == nil {
 		return schema.StreamReaderFromArray(chunks)
 	}
@@ -298,6 +298,27 @@ func (b *builder) emit(ctx context.Context, n *Node, full string, out M, failMid
 		}
 	})
 	return sr
+}
+
+// interimChunks: a node with a progress counter streams an interim value of it first (the final
+// value, 0, comes with the ordinary chunks: integers concatenate last-wins).
+func interimChunks(n *Node, chunks []M) []M {
+	if !n.Interim {
+		return chunks
+	}
+	if _, ok := mergeChunksHave(chunks, "z:"+n.Key); !ok {
+		return chunks // (a failure placeholder, not the node's output)
+	}
+	return append([]M{{"z:" + n.Key: 7}}, chunks...)
+}
+
+func mergeChunksHave(chunks []M, key string) (any, bool) {
+	for _, c := range chunks {
+		if v, ok := c[key]; ok {
+			return v, true
+		}
+	}
+	return nil, false
 }
 
 // begin records that the node function was called (its input may not be known yet: a
@@ -372,6 +393,9 @@ func (b *builder) body(ctx context.Context, p *Plan, n *Node, full string, in M,
 	}
 	e.doneCount[ck] = done + 1
 	rec.End = e.Seq()
+	if n.Interim {
+		return M{n.Key: NodeValue(n.Key, rec.Input), "z:" + n.Key: 0}, nil
+	}
 	return M{n.Key: NodeValue(n.Key, rec.Input)}, nil
 }
 
@@ -508,7 +532,7 @@ func (b *builder) lambda(p *Plan, n *Node, full string) *compose.Lambda {
 					sw.Send(nil, err)
 					return
 				}
-				for _, c := range chunksOf(out, n.Cut) {
+				for _, c := range interimChunks(n, chunksOf(out, n.Cut)) {
 					if sw.Send(c, nil) {
 						return
 					}
